@@ -6,7 +6,7 @@ import re._constants as sre_c
 from sa.index import AnalysisError
 from sa.paths import call_name
 from sa.consteval import Folder, Unknown
-from rules.common import is_regex_method_name, txt, module_regex, paths_of, loc, tests_on, check_none_default, Quiet
+from rules.common import cmp_text, is_regex_method_name, txt, module_regex, paths_of, loc, tests_on, check_none_default, Quiet
 
 SHLEX_SAFE = set('abcdefghijklmnopqrstuvwxyzABCDEFGHIJKLMNOPQRSTUVWXYZ0123456789_@%+=:,./-')
 
@@ -183,7 +183,7 @@ def run(ctx):
         for o in pth.ops:
             # source-level test on the (possibly platform-defaulted) style variable
             if o.kind == 'test' and o.info is True:
-                m = re.fullmatch(r"style == '(\w+)'", txt(o.node))
+                m = re.fullmatch(r"style == '(\w+)'", cmp_text(o.node, 'style'))
                 if m:
                     sel = m.group(1)
         if pth.kind == 'return':
@@ -205,15 +205,19 @@ def run(ctx):
     c = prog.func('strutils.args2cmd')
     BUF = OUT = CH = None
     for n in ast.walk(c.node):
-        if isinstance(n, ast.If) and isinstance(n.test, ast.Compare) and isinstance(n.test.left, ast.Name) and \
-                len(n.test.ops) == 1 and isinstance(n.test.ops[0], ast.Eq) and cval(n.test.comparators[0]) == '\\':
+        if isinstance(n, ast.If) and isinstance(n.test, ast.Compare) and len(n.test.ops) == 1 and isinstance(n.test.ops[0], ast.Eq):
+            a, b = n.test.left, n.test.comparators[0]
+            if isinstance(b, ast.Name) and cval(a) == '\\':
+                a, b = b, a
+            if not (isinstance(a, ast.Name) and cval(b) == '\\'):
+                continue
             for st in n.body:
                 for x in ast.walk(st):
                     if isinstance(x, ast.Call) and isinstance(x.func, ast.Attribute) and x.func.attr == 'append' and x.args \
-                            and txt(x.args[0]) == n.test.left.id and isinstance(x.func.value, ast.Name):
-                        BUF, CH = x.func.value.id, n.test.left.id
+                            and txt(x.args[0]) == a.id and isinstance(x.func.value, ast.Name):
+                        BUF, CH = x.func.value.id, a.id
     for n in ast.walk(c.node):
-        if isinstance(n, ast.Return) and isinstance(n.value, ast.Call) and isinstance(n.value.func, ast.Attribute) and \
+        if isinstance(n, (ast.Return, ast.Assign)) and isinstance(n.value, ast.Call) and isinstance(n.value.func, ast.Attribute) and \
                 n.value.func.attr == 'join' and n.value.args and isinstance(n.value.args[0], ast.Name):
             OUT = n.value.args[0].id
     if not (BUF and OUT and CH):
